@@ -17,7 +17,7 @@ FILES = ["solvor/milp.py", "solvor/simplex.py", "solvor/lns.py"]
 FUNCTIONS = ["solvor.milp.solve_milp", "solvor.milp._solve_node", "solvor.milp._most_fractional", "solvor.milp._detect_binary", "solvor.milp._round_binary",
              "solvor.milp._is_feasible", "solvor.milp._lns_improve / _solve_sub_mip", "solvor.simplex.solve_lp (as called per node)"]
 BOUNDS = {
-    "quick": "n=2 variables (all-integer and mixed) and n=3 binary-style, constraint rows from {-1,0,1,2} (1-2 general rows, VERIF_SEED-sampled) plus box "
+    "quick": "n=2 variables (all-integer and mixed), n=3 binary-style, and n=3 mixed (two integer, one continuous, per-variable upper bounds 1 or 3), constraint rows from {-1,0,1,2} (1-2 general rows, VERIF_SEED-sampled) plus box "
              "rows x_j <= U (U=3, or 1 for the binary family), c from {-2..3}, minimize/maximize; b of the general rows symbolic Ints in -20..20; options: "
              "heuristics on/off, warm start absent / feasible-looking / wrong length, lns_iterations 0/1, solution_limit 1/2",
     "thorough": "more sampled (A,c) cells (x8), U=4, 3 general rows",
@@ -48,8 +48,9 @@ def h_milp(s, rows, c, U, integers, minimize, heuristics=True, warm=None, lns=0,
     n = len(c)
     sym = s.symbolic
     b_gen = [s.int("b%d" % i, -20, 20) for i in range(len(rows))]
+    Us = list(U) if isinstance(U, (list, tuple)) else [U] * n
     A = [list(r) for r in rows] + [[1 if k == j else 0 for k in range(n)] for j in range(n)]
-    b = list(b_gen) + [U] * n
+    b = list(b_gen) + Us
     Ain = [[K(v) if sym else float(v) for v in row] for row in A]
     bin_ = [(x * 1.0 if isinstance(x, SNum) else float(x)) for x in b]
     cin = [K(v) if sym else float(v) for v in c]
@@ -67,10 +68,10 @@ def h_milp(s, rows, c, U, integers, minimize, heuristics=True, warm=None, lns=0,
     cont = [j for j in range(n) if j not in integers]
     if cont:
         s.goal("milp.mixed")
-    if U == 1:
+    if all(u == 1 for u in Us):
         s.goal("milp.binary")
     # every integer point of the box, continuous coordinates as fresh reals
-    pts = list(itertools.product(range(U + 1), repeat=len(integers)))
+    pts = list(itertools.product(*[range(Us[j] + 1) for j in integers]))
 
     def full(p, tag):
         x = [None] * n
@@ -140,6 +141,12 @@ def items(tier, rng):
         rows = [[rng.choice((0, 1, 2, 3)) for _ in range(3)] for _ in range(rng.choice([1, 2]))]
         c = [rng.randint(-3, 3) for _ in range(3)]
         cells.append((rows, c, 1, [0, 1, 2]))  # binary-style knapsack rows
+    for _ in range(16 if q else 120):
+        # three variables, two of them integer, explicit x_j <= 1 rows on SOME variables only (integer or continuous)
+        rows = [[rng.choice((-2, -1, 0, 1, 2)) for _ in range(3)] for _ in range(2)]
+        c = [rng.randint(-2, 3) for _ in range(3)]
+        ints = sorted(rng.sample(range(3), 2))
+        cells.append((rows, c, [rng.choice([1, 1, 3]) for _ in range(3)], ints))
     for ci, (rows, c, U, ints) in enumerate(cells):
         for minimize in ((True, False) if ci % 2 == 0 else (rng.random() < 0.5,)):
             base = {"rows": rows, "c": c, "U": U, "integers": ints, "minimize": minimize}
@@ -149,9 +156,9 @@ def items(tier, rng):
             if ci % 4 == 1:
                 out.append({"name": "milp_pool", "harness": "h_milp", "params": dict(base, solution_limit=2), "max_paths": 400})
             if ci % 4 == 2:
-                w = [rng.randint(0, U) for _ in c]
+                w = [rng.randint(0, (U[k] if isinstance(U, list) else U)) for k in range(len(c))]
                 out.append({"name": "milp_warm", "harness": "h_milp", "params": dict(base, warm=w), "max_paths": 400})
                 out.append({"name": "milp_warm_badlen", "harness": "h_milp", "params": dict(base, warm=w + [0]), "max_paths": 400})
-            if U == 1 and ci % 2 == 0:
+            if U == 1 and ci % 2 == 0:  # all-binary family
                 out.append({"name": "milp_lns", "harness": "h_milp", "params": dict(base, lns=1), "max_paths": 80})
     return out
